@@ -1,5 +1,5 @@
-(* Facts about Model/FetchGrow.v (the consumer's reaction to ConsumerFetchSizeTooSmall) for property C12. *)
-From Coq Require Import Lia.
+(* Facts about Model/FetchGrow.v (the consumer's reaction to what the set decoder does with a fetch answer) for C12. *)
+From Coq Require Import Lia Sorted.
 From AV Require Import Base.Util Model.FetchGrow.
 
 (* ------------------------------------------------------------------ the pure growth rule *)
@@ -28,107 +28,237 @@ Proof. unfold grow. intros Hp H. destruct (buf <=? 1048576); inversion H; lia. Q
 Lemma grow_bounded_double buf m b : 0 < buf -> grow buf (Some m) = Some b -> Z.min (2 * buf) m <= b.
 Proof. unfold grow. intros Hp H. destruct (buf <? m); [|discriminate]. destruct (buf <=? 1048576); inversion H; lia. Qed.
 
-(* ------------------------------------------------------------------ one TooSmall answer *)
-Theorem toosmall_step mb s s' outs :
-  g_failed s = false -> 0 < g_buf s -> gstep mb s TooSmall = (s', outs) ->
-  (exists b, outs = [Fetch (g_off s) b] /\ g_buf s < b /\ (forall m, mb = Some m -> b <= m)
-             /\ s' = mkG (g_off s) b false)
-  \/ (outs = [StartFailed] /\ (exists m, mb = Some m /\ m <= g_buf s) /\ s' = mkG (g_off s) (g_buf s) true).
+(* ------------------------------------------------------------------ accept: what the loop over resp.messages keeps *)
+Lemma accept_spec : forall offs fo dl fo',
+  accept fo offs = (dl, fo') ->
+  fo <= fo' /\ Forall (fun o => fo <= o < fo') dl /\ StronglySorted Z.lt dl /\
+  (dl = [] -> fo' = fo) /\ (forall d, last dl d = d -> dl = [] \/ True) /\
+  (dl <> [] -> fo' = last dl 0 + 1).
 Proof.
-  intros Hf Hp. unfold gstep. rewrite Hf. destruct (grow (g_buf s) mb) as [b|] eqn:G; intro H; inversion H; subst.
+  induction offs as [|o r IH]; intros fo dl fo'; cbn [accept].
+  - intros [= <- <-]. repeat split; auto; try lia; try constructor. intros H; contradiction.
+  - destruct (o <? fo) eqn:L.
+    + apply IH.
+    + apply Z.ltb_ge in L. destruct (accept (o + 1) r) as [d f] eqn:A. intros [= <- <-].
+      destruct (IH _ _ _ A) as (H1 & H2 & H3 & H4 & _ & H6).
+      split; [lia|]. split.
+      { constructor; [lia|]. eapply Forall_impl; [|exact H2]. cbn. intros; lia. }
+      split.
+      { constructor; auto. eapply Forall_impl; [|exact H2]. cbn. intros; lia. }
+      split; [discriminate|]. split; [auto|]. intros _.
+      destruct d as [|x d']; [rewrite (H4 eq_refl); reflexivity|].
+      rewrite H6 by discriminate. reflexivity.
+Qed.
+
+Lemma accept_below fo offs : Forall (fun o => o < fo) offs -> accept fo offs = ([], fo).
+Proof.
+  induction 1 as [|o r Ho Hr IH]; cbn [accept]; auto.
+  destruct (o <? fo) eqn:L; [exact IH|apply Z.ltb_ge in L; lia].
+Qed.
+
+Lemma accept_app_below fo pre run : Forall (fun o => o < fo) pre -> accept fo (pre ++ run) = accept fo run.
+Proof.
+  induction 1 as [|o r Ho Hr IH]; cbn [accept app]; auto.
+  destruct (o <? fo) eqn:L; [exact IH|apply Z.ltb_ge in L; lia].
+Qed.
+
+(* a strictly increasing run that starts at or after the fetch offset is kept entirely *)
+Lemma accept_sorted : forall run fo, StronglySorted Z.lt run -> Forall (fun o => fo <= o) run ->
+  accept fo run = (run, match run with [] => fo | _ => last run 0 + 1 end).
+Proof.
+  induction run as [|o r IH]; intros fo Hs Hf; cbn [accept]; auto.
+  inversion Hs as [|? ? Hs' Hlt]; subst. inversion Hf as [|? ? Ho Hr]; subst.
+  destruct (o <? fo) eqn:L; [apply Z.ltb_lt in L; lia|].
+  rewrite (IH (o + 1) Hs').
+  - destruct r; reflexivity.
+  - eapply Forall_impl; [|exact Hlt]. cbn. intros; lia.
+Qed.
+
+(* ------------------------------------------------------------------ one answer that ends in ConsumerFetchSizeTooSmall *)
+Theorem toosmall_step mb s offs s' outs :
+  g_failed s = false -> 0 < g_buf s -> gstep mb s (Reply offs TooSmallTail) = (s', outs) ->
+  let dl := fst (accept (g_off s) offs) in let fo := snd (accept (g_off s) offs) in
+  (dl = [] -> fo = g_off s) /\
+  ((exists b, outs = deliver dl ++ [Fetch fo b] /\ g_buf s < b /\ (forall m, mb = Some m -> b <= m)
+              /\ s' = mkG fo b false)
+   \/ (outs = StartFailed :: deliver dl /\ (exists m, mb = Some m /\ m <= g_buf s) /\ s' = mkG fo (g_buf s) true)).
+Proof.
+  intros Hf Hp. unfold gstep. rewrite Hf. destruct (accept (g_off s) offs) as [dl fo] eqn:A. cbn [fst snd].
+  destruct (accept_spec _ _ _ _ A) as (_ & _ & _ & H4 & _).
+  destruct (grow (g_buf s) mb) as [b|] eqn:G; intro H; inversion H; subst; (split; [exact H4|]).
   - left. exists b. repeat split; auto.
     + eapply grow_strict; eauto.
     + intros m ->. eapply grow_le_max; eauto.
   - right. repeat split; auto. apply grow_none_iff. assumption.
 Qed.
 
-(* ------------------------------------------------------------------ whole runs: nothing is skipped *)
-(* the Deliver outputs of a trace chain: each starts where the previous ended, from offset [o] up to [o'] *)
-Fixpoint chain (o : Z) (outs : list gout) : option Z :=
-  match outs with
-  | [] => Some o
-  | Deliver f l :: r => if (f =? o) && (f <=? l) then chain (l + 1) r else None
-  | _ :: r => chain o r
+(* ------------------------------------------------------------------ whole runs *)
+Definition delivered (outs : list gout) : list Z :=
+  flat_map (fun o => match o with Deliver dl => dl | _ => [] end) outs.
+
+Lemma delivered_app a b : delivered (a ++ b) = delivered a ++ delivered b.
+Proof. unfold delivered. apply flat_map_app. Qed.
+
+Lemma delivered_deliver dl : delivered (deliver dl) = dl.
+Proof. destruct dl; cbn; auto. rewrite app_nil_r. reflexivity. Qed.
+
+Lemma gstep_delivered mb s e s' outs : gstep mb s e = (s', outs) ->
+  (g_failed s = true /\ s' = s /\ outs = []) \/
+  (g_failed s = false /\ match e with Reply offs _ => accept (g_off s) offs = (delivered outs, g_off s') end).
+Proof.
+  unfold gstep. destruct (g_failed s) eqn:F.
+  - intros [= <- <-]. left; auto.
+  - intro H. right. split; auto. destruct e as [offs tail]. destruct (accept (g_off s) offs) as [dl fo] eqn:A.
+    assert (X : delivered (StartFailed :: deliver dl) = dl).
+    { change (StartFailed :: deliver dl) with ([StartFailed] ++ deliver dl). rewrite delivered_app, delivered_deliver. reflexivity. }
+    assert (Y : forall b, delivered (deliver dl ++ [Fetch fo b]) = dl).
+    { intro b. rewrite delivered_app, delivered_deliver. cbn. apply app_nil_r. }
+    destruct tail; try destruct (grow (g_buf s) mb); inversion H; subst; cbn [g_off]; rewrite ?X, ?Y; reflexivity.
+Qed.
+
+Lemma sorted_app_lt (a b : list Z) x :
+  StronglySorted Z.lt a -> StronglySorted Z.lt b -> Forall (fun o => o < x) a -> Forall (fun o => x <= o) b ->
+  StronglySorted Z.lt (a ++ b).
+Proof.
+  induction a as [|y a IH]; intros Ha Hb Fa Fb; cbn [app]; auto.
+  inversion Ha as [|? ? Ha' Hy]; subst. inversion Fa as [|? ? Hyx Fa']; subst.
+  constructor; [apply IH; auto|]. apply Forall_app. split; auto.
+  eapply Forall_impl; [|exact Fb]. cbn. intros; lia.
+Qed.
+
+(* no offset is handed to the processor twice, none out of order - over any sequence of answers whatsoever, including
+   answers that deliver a prefix and then end in ConsumerFetchSizeTooSmall or in a decoding error, and across every refetch *)
+Theorem run_no_repeat mb : forall evs s s' outs, grun mb s evs = (s', outs) ->
+  g_off s <= g_off s' /\ StronglySorted Z.lt (delivered outs) /\
+  Forall (fun o => g_off s <= o < g_off s') (delivered outs).
+Proof.
+  induction evs as [|e r IH]; intros s s' outs; cbn [grun].
+  - intros [= <- <-]. cbn. repeat split; try lia; constructor.
+  - destruct (gstep mb s e) as [s1 o1] eqn:E1. destruct (grun mb s1 r) as [s2 o2] eqn:E2.
+    intros [= <- <-]. destruct (IH _ _ _ E2) as (L2 & S2 & F2). rewrite delivered_app.
+    destruct (gstep_delivered _ _ _ _ _ E1) as [(Hf & -> & ->) | (Hf & Ha)].
+    + cbn [delivered flat_map app]. auto.
+    + destruct e as [offs tail]. destruct (accept_spec _ _ _ _ Ha) as (L1 & F1 & S1 & _).
+      split; [lia|]. split.
+      * apply (sorted_app_lt _ _ (g_off s1)); auto.
+        -- eapply Forall_impl; [|exact F1]. cbn. intros; lia.
+        -- eapply Forall_impl; [|exact F2]. cbn. intros; lia.
+      * apply Forall_app. split; (eapply Forall_impl; [|eassumption]); cbn; intros; lia.
+Qed.
+
+(* ------------------------------------------------------------------ nothing is skipped: against an honest log
+   The partition holds the messages at the offsets L (strictly increasing; gaps allowed).  An answer to a request for
+   offset fo is HONEST when what the decoder yields is: some messages below fo (the head of a wrapper that contains fo),
+   then a run of the log's messages from fo on - as many as fitted - and then any of the three endings. *)
+Definition from (fo : Z) (L : list Z) : list Z := filter (fun x => fo <=? x) L.
+
+Definition honest (L : list Z) (fo : Z) (e : gev) : Prop :=
+  match e with Reply offs _ => exists pre run rest, offs = pre ++ run /\ Forall (fun o => o < fo) pre /\ from fo L = run ++ rest end.
+
+Fixpoint honest_run (L : list Z) (mb : option Z) (s : gstate) (evs : list gev) : Prop :=
+  match evs with
+  | [] => True
+  | e :: r => (g_failed s = false -> honest L (g_off s) e) /\ honest_run L mb (fst (gstep mb s e)) r
   end.
 
-Lemma chain_app o a : forall b o1, chain o a = Some o1 -> chain o (a ++ b) = chain o1 b.
+Lemma from_sorted L fo : StronglySorted Z.lt L -> StronglySorted Z.lt (from fo L).
 Proof.
-  revert o. induction a as [|x a IH]; intros o b o1 H; simpl in *.
-  - inversion H; reflexivity.
-  - destruct x; auto. destruct ((first =? o) && (first <=? last)); [auto | discriminate].
+  induction 1 as [|x l Hs IH Hx]; cbn [from filter]; [constructor|].
+  destruct (fo <=? x); auto. constructor; auto.
+  apply Forall_forall. intros y Hy. apply filter_In in Hy. destruct Hy as [Hy _].
+  rewrite Forall_forall in Hx. auto.
 Qed.
 
-Lemma gstep_chain mb s e s' outs : gstep mb s e = (s', outs) -> chain (g_off s) outs = Some (g_off s').
+Lemma from_ge L fo : Forall (fun o => fo <= o) (from fo L).
+Proof. apply Forall_forall. intros y Hy. apply filter_In in Hy. destruct Hy as [_ Hy]. apply Z.leb_le in Hy. exact Hy. Qed.
+
+Lemma from_from L a b : a <= b -> from b (from a L) = from b L.
 Proof.
-  unfold gstep. destruct (g_failed s).
-  - intro H; inversion H; reflexivity.
-  - destruct e as [|k].
-    + destruct (grow (g_buf s) mb); intro H; inversion H; reflexivity.
-    + destruct (k <=? 0) eqn:K; intro H; inversion H; subst; simpl; auto.
-      rewrite Z.eqb_refl. replace (g_off s <=? g_off s + k - 1) with true by (symmetry; apply Z.leb_le; lia).
-      simpl. f_equal. lia.
+  intros Hab. unfold from. induction L as [|x l IH]; cbn [filter]; auto.
+  destruct (a <=? x) eqn:A; destruct (b <=? x) eqn:B; cbn [filter]; rewrite ?B, ?IH; auto.
+  apply Z.leb_gt in A. apply Z.leb_le in B. lia.
 Qed.
 
-Theorem run_chain mb : forall evs s s' outs, grun mb s evs = (s', outs) -> chain (g_off s) outs = Some (g_off s').
+Lemma from_all l fo : Forall (fun o => fo <= o) l -> from fo l = l.
 Proof.
-  induction evs as [|e r IH]; intros s s' outs; simpl.
-  - intro H; inversion H; reflexivity.
-  - destruct (gstep mb s e) as [s1 o1] eqn:E1. destruct (grun mb s1 r) as [s2 o2] eqn:E2.
-    intro H; inversion H; subst. erewrite chain_app by (eapply gstep_chain; eauto). eapply IH; eauto.
+  induction 1 as [|x l Hx Hl IH]; cbn [from filter]; auto.
+  replace (fo <=? x) with true by (symmetry; apply Z.leb_le; exact Hx). f_equal. exact IH.
 Qed.
 
-(* every request of a run asks for the offset right after the last delivered message (or the start offset) *)
-Fixpoint fetches_follow (o : Z) (outs : list gout) : bool :=
-  match outs with
-  | [] => true
-  | Fetch a _ :: r => (a =? o) && fetches_follow o r
-  | Deliver _ l :: r => fetches_follow (l + 1) r
-  | StartFailed :: r => fetches_follow o r
-  end.
-
-Lemma fetches_follow_app a : forall o b o1, fetches_follow o a = true -> chain o a = Some o1 ->
-  fetches_follow o (a ++ b) = fetches_follow o1 b.
+Lemma from_none l fo : Forall (fun o => o < fo) l -> from fo l = [].
 Proof.
-  induction a as [|x a IH]; intros o b o1 Hf Hc; simpl in *.
-  - inversion Hc; reflexivity.
-  - destruct x.
-    + apply andb_prop in Hf as [-> Hf]. simpl. eauto.
-    + destruct ((first =? o) && (first <=? last)); [eauto | discriminate].
-    + eauto.
+  induction 1 as [|x l Hx Hl IH]; cbn [from filter]; auto.
+  replace (fo <=? x) with false by (symmetry; apply Z.leb_gt; exact Hx). exact IH.
 Qed.
 
-Lemma gstep_follow mb s e s' outs : gstep mb s e = (s', outs) -> fetches_follow (g_off s) outs = true.
+Lemma sorted_app_inv (a b : list Z) : StronglySorted Z.lt (a ++ b) ->
+  StronglySorted Z.lt a /\ StronglySorted Z.lt b /\ (forall x y, In x a -> In y b -> x < y).
 Proof.
-  unfold gstep. destruct (g_failed s).
-  - intro H; inversion H; reflexivity.
-  - destruct e as [|k].
-    + destruct (grow (g_buf s) mb); intro H; inversion H; simpl; rewrite ?Z.eqb_refl; reflexivity.
-    + destruct (k <=? 0); intro H; inversion H; subst; simpl; rewrite ?Z.eqb_refl; auto.
-      replace (g_off s + k - 1 + 1) with (g_off s + k) by lia. rewrite Z.eqb_refl. reflexivity.
+  induction a as [|x a IH]; cbn [app]; intros H.
+  - repeat split; auto; [constructor | intros ? ? []].
+  - inversion H as [|? ? Hs Hx]; subst. destruct (IH Hs) as (Sa & Sb & Hab).
+    apply Forall_app in Hx. destruct Hx as [Hxa Hxb]. rewrite Forall_forall in Hxb.
+    repeat split; auto; [constructor; auto|].
+    intros u v [<-|Hu] Hv; auto.
 Qed.
 
-Theorem run_follow mb : forall evs s s' outs, grun mb s evs = (s', outs) -> fetches_follow (g_off s) outs = true.
+Lemma last_in (l : list Z) d : l <> [] -> In (last l d) l.
 Proof.
-  induction evs as [|e r IH]; intros s s' outs; simpl.
-  - intro H; inversion H; reflexivity.
-  - destruct (gstep mb s e) as [s1 o1] eqn:E1. destruct (grun mb s1 r) as [s2 o2] eqn:E2.
-    intro H; inversion H; subst.
-    erewrite fetches_follow_app; [eapply IH; eauto | eapply gstep_follow; eauto | eapply gstep_chain; eauto].
+  induction l as [|x l IH]; [contradiction|]. intros _. destruct l as [|y l'].
+  - left; reflexivity.
+  - right. apply IH. discriminate.
+Qed.
+
+(* after keeping [run], the rest of the log from the new fetch offset on is exactly what was not yet returned *)
+Lemma from_after_run L fo run rest : StronglySorted Z.lt L -> from fo L = run ++ rest ->
+  from (match run with [] => fo | _ => last run 0 + 1 end) L = rest.
+Proof.
+  intros HL E. pose proof (from_sorted L fo HL) as S. rewrite E in S.
+  destruct (sorted_app_inv _ _ S) as (Sa & Sb & Hab).
+  pose proof (from_ge L fo) as G. rewrite E in G. apply Forall_app in G. destruct G as [Ga Gb].
+  destruct run as [|x run'].
+  - cbn [app] in E. exact E.
+  - set (run := x :: run') in *. set (l := last run 0).
+    assert (Hl : In l run) by (apply last_in; discriminate).
+    assert (Hfo : fo <= l + 1). { rewrite Forall_forall in Ga. specialize (Ga l Hl). lia. }
+    rewrite <- (from_from L fo (l + 1) Hfo), E.
+    unfold from at 1. rewrite filter_app. fold (from (l + 1) run). fold (from (l + 1) rest).
+    rewrite from_none, from_all; auto.
+    + apply Forall_forall. intros y Hy. specialize (Hab l y Hl Hy). lia.
+    + (* every element of run is <= its last *)
+      clear -Sa. subst l. induction run as [|a r IH]; [constructor|].
+      inversion Sa as [|? ? Sr Ha]; subst. destruct r as [|b r'].
+      * constructor; [cbn; lia|constructor].
+      * specialize (IH Sr). constructor.
+        -- change (last (a :: b :: r') 0) with (last (b :: r') 0).
+           inversion IH as [|? ? Hb _]; subst. inversion Ha; subst. lia.
+        -- exact IH.
+Qed.
+
+Theorem run_no_skip L mb : StronglySorted Z.lt L -> forall evs s s' outs,
+  honest_run L mb s evs -> grun mb s evs = (s', outs) ->
+  from (g_off s) L = delivered outs ++ from (g_off s') L.
+Proof.
+  intros HL. induction evs as [|e r IH]; intros s s' outs; cbn [grun honest_run].
+  - intros _ [= <- <-]. reflexivity.
+  - intros [Hh Hr]. destruct (gstep mb s e) as [s1 o1] eqn:E1. cbn [fst] in Hr.
+    destruct (grun mb s1 r) as [s2 o2] eqn:E2. intros [= <- <-]. rewrite delivered_app.
+    specialize (IH _ _ _ Hr E2).
+    destruct (gstep_delivered _ _ _ _ _ E1) as [(Hf & -> & ->) | (Hf & Ha)].
+    + cbn [delivered flat_map app]. exact IH.
+    + destruct e as [offs tail]. destruct (Hh Hf) as (pre & run & rest & -> & Hpre & Hfrom).
+      rewrite accept_app_below in Ha by exact Hpre.
+      pose proof (from_sorted L (g_off s) HL) as S. rewrite Hfrom in S.
+      destruct (sorted_app_inv _ _ S) as (Srun & _ & _).
+      pose proof (from_ge L (g_off s)) as G. rewrite Hfrom in G. apply Forall_app in G. destruct G as [Grun _].
+      rewrite (accept_sorted run (g_off s) Srun Grun) in Ha. injection Ha as Hd Ho.
+      rewrite <- Hd, <- app_assoc, <- IH, Hfrom. f_equal. rewrite <- Ho. symmetry.
+      apply (from_after_run L (g_off s) run rest HL Hfrom).
 Qed.
 
 (* ------------------------------------------------------------------ the buffer gets there *)
-Lemma gstep_buf_pos mb s e s' outs : 0 < g_buf s -> gstep mb s e = (s', outs) -> 0 < g_buf s'.
-Proof.
-  unfold gstep. intro Hp. destruct (g_failed s).
-  - intro H; inversion H; subst; auto.
-  - destruct e as [|k].
-    + destruct (grow (g_buf s) mb) as [b|] eqn:G; intro H; inversion H; subst; simpl; auto.
-      apply grow_strict in G; lia.
-    + destruct (k <=? 0); intro H; inversion H; subst; simpl; auto.
-Qed.
-
-(* n consecutive TooSmall answers, no limit configured: never a failure, the offset stays, the buffer at least
-   doubles each time - so it exceeds any message size after finitely many answers *)
+(* n consecutive cut-in-the-first-entry answers, no limit configured: never a failure, the offset stays, the buffer at
+   least doubles each time - so it exceeds any message size after finitely many answers *)
 Theorem toosmall_unbounded : forall n s s' outs,
   g_failed s = false -> 0 < g_buf s -> grun None s (repeat TooSmall n) = (s', outs) ->
   g_failed s' = false /\ g_off s' = g_off s /\ 2 ^ Z.of_nat n * g_buf s <= g_buf s' /\ length outs = n.
@@ -137,9 +267,10 @@ Proof.
   - intro H; inversion H; subst. repeat split; auto. simpl Z.of_nat. rewrite Z.pow_0_r. lia.
   - destruct (gstep None s TooSmall) as [s1 o1] eqn:E1. destruct (grun None s1 (repeat TooSmall n)) as [s2 o2] eqn:E2.
     intro H; inversion H; subst; clear H.
-    destruct (toosmall_step _ _ _ _ Hf Hp E1) as [(b & -> & Hlt & _ & ->) | (_ & (m & Hm & _) & _)]; [|discriminate].
+    destruct (toosmall_step _ _ _ _ _ Hf Hp E1) as (_ & [(b & -> & Hlt & _ & ->) | (_ & (m & Hm & _) & _)]); [|discriminate].
+    cbn [accept fst snd deliver app] in *.
     assert (G : grow (g_buf s) None = Some b).
-    { unfold gstep in E1. rewrite Hf in E1. destruct (grow (g_buf s) None); inversion E1; reflexivity. }
+    { unfold gstep, TooSmall in E1. rewrite Hf in E1. cbn [accept] in E1. destruct (grow (g_buf s) None); inversion E1; reflexivity. }
     apply grow_unbounded_double in G; auto.
     assert (Hb : 0 < g_buf (mkG (g_off s) b false)) by (simpl; lia).
     destruct (IH (mkG (g_off s) b false) _ _ eq_refl Hb E2) as (F & O & B & L). cbn [g_off g_buf g_failed length app] in *.
@@ -163,9 +294,10 @@ Proof.
   - destruct (gstep (Some m) s TooSmall) as [s1 o1] eqn:E1.
     destruct (grun (Some m) s1 (repeat TooSmall n)) as [s2 o2] eqn:E2.
     intro H; inversion H; subst; clear H.
-    destruct (toosmall_step _ _ _ _ Hf Hp E1) as [(b & -> & Hlt & Hmax & ->) | (-> & (m' & Hm & Hge) & ->)].
+    destruct (toosmall_step _ _ _ _ _ Hf Hp E1) as (_ & [(b & -> & Hlt & Hmax & ->) | (-> & (m' & Hm & Hge) & ->)]);
+      cbn [accept fst snd deliver app] in *.
     + assert (G : grow (g_buf s) (Some m) = Some b).
-      { unfold gstep in E1. rewrite Hf in E1. destruct (grow (g_buf s) (Some m)); inversion E1; reflexivity. }
+      { unfold gstep, TooSmall in E1. rewrite Hf in E1. cbn [accept] in E1. destruct (grow (g_buf s) (Some m)); inversion E1; reflexivity. }
       apply grow_bounded_double in G; auto. specialize (Hmax m eq_refl).
       assert (Hb : 0 < g_buf (mkG (g_off s) b false)) by (simpl; lia).
       assert (Hb2 : g_buf (mkG (g_off s) b false) <= m) by (simpl; lia).
@@ -178,7 +310,7 @@ Proof.
     + inversion Hm; subst m'. (* failed now: the rest of the run does nothing *)
       assert (R : forall k st, g_failed st = true -> grun (Some m) st (repeat TooSmall k) = (st, [])).
       { induction k as [|k IHk]; intros st Hst; simpl; auto. unfold gstep. rewrite Hst. rewrite IHk; auto. }
-      rewrite R in E2 by reflexivity. inversion E2; subst. simpl.
+      rewrite R in E2 by reflexivity. inversion E2; subst. cbn [g_off g_buf g_failed].
       split; [reflexivity|]. split; [lia|]. split; [discriminate|].
       intros _. split; [lia | left; reflexivity].
 Qed.
